@@ -71,6 +71,9 @@ def _rdl_shapes():
                "the successive interpretations; pad tokens yield nothing; returns (values, end position); ReadError when bits run out")
 def read_dtype_list_spec(C, self, dtypes, pos):
     V = bits(self)
+    N = V.n
+    # lsb0: token i reads the window counted from the least significant end (see streams._read_core)
+    win = (lambda a, b: sub(V, N - b, N - a)) if C.lsb0 else (lambda a, b: sub(V, a, b))
     info = []
     for d in dtypes:
         name, L = d.attrs['_name'], d.attrs['_length']
@@ -98,7 +101,7 @@ def read_dtype_list_spec(C, self, dtypes, pos):
             from .golomb import readue_core
             if C.lsb0:
                 C.throw('ReadError')
-            c, used = readue_core(C, sub(V, p, V.n), 0)      # (the code reads the codeword from the tail bits[pos:])
+            c, used = readue_core(C, win(p, V.n), 0)      # (the code reads the codeword from the tail bits[pos:])
             p = p + used
             if name == 'se':
                 m = (c + 1) // 2
@@ -114,7 +117,7 @@ def read_dtype_list_spec(C, self, dtypes, pos):
             Lb = L * unit
         if sym.truth(p + Lb > V.n):
             C.throw('ReadError')
-        v = decode(C, name, sub(V, p, p + Lb), self.cls)
+        v = decode(C, name, win(p, p + Lb), self.cls)
         p = p + Lb
         if name != 'pad':
             vals.append(v)
@@ -128,6 +131,15 @@ PACKS = [
     ('2*(uint:n)', [('uint', 'n'), ('uint', 'n')], {'n': 'n'}),
     ('uintle:16, pad:3, uintbe:n', [('uintle', 16), ('pad', 3), ('uintbe', 'n')], {'n': 'n'}),
 ]
+
+
+def _assemble(C, pieces):
+    """the tokens' encodings in order; in lsb0 mode the first token sits at the least significant end, i.e. the stored order is
+    the reverse token order (each value still encoded as a whole value), so that an lsb0 unpack reads them back in order"""
+    V = zeros(0)
+    for W in (reversed(pieces) if C.lsb0 else pieces):
+        V = cat(V, W)
+    return V
 
 
 def _pack_shapes():
@@ -150,21 +162,21 @@ def _pack_shapes():
 def pack_spec(C, fmt, *values, **kwargs):
     toks = next(t for f, t, k in PACKS if f == fmt)
     nvals = sum(1 for t in toks if t[0] != 'pad')
-    V = zeros(0)
+    pieces = []
     it = list(values)
     for name, ln in toks:
         n = kwargs[ln] if isinstance(ln, str) else ln
         if name == 'pad':
             if sym.truth(n < 0):
                 C.throw('ValueError')
-            V = cat(V, zeros(n))
+            pieces.append(zeros(n))
             continue
         if not it:
             C.throw('ValueError')
-        V = cat(V, enc_row(C, name, it.pop(0), n))
+        pieces.append(enc_row(C, name, it.pop(0), n))
     if it:
         C.throw('ValueError')
-    return mk_bits(C, C.cls('BitStream'), V, pos=0)
+    return mk_bits(C, C.cls('BitStream'), _assemble(C, pieces), pos=0)
 
 
 # ---- pack with 'bits' tokens: the values are bitstrings (or strings denoting them) whose stores must not be adopted ---------------
@@ -230,12 +242,12 @@ def _pack_bits_shapes():
                "(CreationError otherwise); the values themselves are unchanged and share nothing with the result")
 def pack_bits_spec(C, fmt, *values, **kwargs):
     toks = next(t for f, t, k, _ in BITS_PACKS if f == fmt)
-    V = zeros(0)
+    pieces = []
     it = list(values)
     for name, ln in toks:
         n = kwargs[ln] if isinstance(ln, str) else ln
         if name == 'pad':
-            V = cat(V, zeros(n))
+            pieces.append(zeros(n))
             continue
         if not it:
             C.throw('ValueError')
@@ -244,9 +256,9 @@ def pack_bits_spec(C, fmt, *values, **kwargs):
             W = promote_bits(C, v)
             if n is not None and sym.truth(lnot(sym.eq(W.n, n))):
                 C.throw('ValueError')
-            V = cat(V, W)
+            pieces.append(W)
         else:
-            V = cat(V, enc_row(C, name, v, n))
+            pieces.append(enc_row(C, name, v, n))
     if it:
         C.throw('ValueError')
-    return mk_bits(C, C.cls('BitStream'), V, pos=0)
+    return mk_bits(C, C.cls('BitStream'), _assemble(C, pieces), pos=0)
